@@ -1,11 +1,11 @@
 from check import Job
 import itertools
 EXPLANATION = 'the real ChunkStore with persistence on, its operating-system primitives replaced by a model disk: over every sequence of put / lookup / sweep a chunk file exists only for a stored, not yet cleaned-up chunk, holds the stored bytes, and is gone after the cleanup that follows the expiry (also when a lookup noticed the expiry first, and when a write fails); a second instance on the same directory is the restart case'
-ASSUMPTIONS = ['ensure_storage_directory, persist_chunk_to_disk, secure_wipe_file and chunk_path_for_key are redirected to harness functions over a model disk (path -> bytes, arbitrary write failure); their own std::filesystem / fstream code, fsync and rename semantics are NOT encoded: only when the store calls them is decided',
-               'crash points inside a primitive (a half-written file) are outside the model; the restart job covers "an earlier instance left a file"',
+ASSUMPTIONS = ['persist_chunk_to_disk is the real code over a model of its primitives: std::ofstream is a source-level class writing to a model disk (open, write - with a prefix already written - and flush may each fail), std::filesystem::status (behind exists()) reads the model disk; ensure_storage_directory, secure_wipe_file and chunk_path_for_key are redirected to harness functions over the same model disk: their own std::filesystem / fstream code (directory creation, overwrite passes, remove), fsync and rename semantics are NOT encoded',
+               'a write that fails part-way leaves a prefix on the model disk (the store must remove it); a crash of the process itself mid-write is outside the model; the restart job covers "an earlier instance left a file"',
                'sequences of 3 (quick) / 4 (thorough) operations over two chunk ids, TTL 1..16 s, event times on the 1/8 s grid; these jobs are not replayed natively (the model disk exists only in the engine)']
 R = {r'ChunkStore24ensure_storage_directoryEv$': 'h_ensure_dir', r'ChunkStore18chunk_path_for_keyERKNSt7__cxx1112basic_string': 'h_chunk_path',
-     r'ChunkStore21persist_chunk_to_diskERKNSt7__cxx1112basic_string': 'h_persist', r'ChunkStore16secure_wipe_fileERKNSt10filesystem': 'h_wipe',
+     r'^_ZNSt10filesystem6statusERKNS_7__cxx114pathE$': 'h_fs_status', r'ChunkStore16secure_wipe_fileERKNSt10filesystem': 'h_wipe',
      r'^_ZNSt10filesystem7__cxx114path14_M_split_cmptsEv$': 'h_path_split_stub'}
 F = ['C04-files-of-earlier-instance-never-reclaimed']
 OPS = 'PLS'
